@@ -59,8 +59,11 @@ structure X where
   s   : St
   n   : Nat := 0
   cur : Cur := []
+  tags : List String := []
 
 abbrev M := StateT X (Except Err)
+
+def tag (t : String) : M Unit := modify fun st => { st with tags := t :: st.tags }
 
 def adv (line : Nat) (g : Tid) (x : Nat) (want : PC) : M Unit := do
   let st ← get
@@ -104,7 +107,7 @@ def onEvent (e : Ev) : M Unit := do
     modify fun st => { st with cur := st.cur.set g o }
   | .fs =>
     match ← leaderOfKey o.key with
-    | some (p, pid) => forceDelete ln p pid
+    | some (p, pid) => tag "sf-model-delete-forced-by-next-flight"; forceDelete ln p pid
     | none => pure ()
     advs ln g [.l1, .n0, .n1, .n2, .n3, .m0, .m1]
   | .fe =>
@@ -119,6 +122,7 @@ def onEvent (e : Ev) : M Unit := do
       let c := st.s.reg g
       if st.s.wg c ≠ 0 then
         let p := st.s.leader c
+        tag "sf-model-delete-forced-by-joiner-return"
         forceDelete ln p (((st.cur.lookup p).map (·.id)).getD 0)
       adv ln g 0 .w2
     adv ln g 0 .idle
@@ -132,11 +136,11 @@ def onEvent (e : Ev) : M Unit := do
         throw (ln, s!"model returns val={r.val} fresh={r.fresh}", s!"val={o.val} fresh={o.fresh}")
     modify fun st => { st with cur := st.cur.del g }
 
-def explain (h : List Obs) : Except Err Nat := do
+def explain (h : List Obs) : Except Err (Nat × List String) := do
   let act : M Unit := do
     for e in events h do onEvent e
   let (_, st) ← act.run { s := init }
-  return st.n
+  return (st.n, st.tags)
 
 end SFx
 
@@ -148,8 +152,11 @@ structure X where
   s   : St
   n   : Nat := 0
   cur : Cur := []
+  tags : List String := []
 
 abbrev M := StateT X (Except Err)
+
+def tag (t : String) : M Unit := modify fun st => { st with tags := t :: st.tags }
 
 def adv (line : Nat) (g : Tid) (x : Nat) (want : PC) : M Unit := do
   let st ← get
@@ -181,7 +188,9 @@ def onEvent (e : Ev) : M Unit := do
     modify fun st => { st with cur := st.cur.set g o }
     -- if the key is busy right now, take the waiting path (lock, found, unlock, wait)
     let st ← get
-    if (st.s.m o.key).isSome ∧ st.s.lock.isNone then advs ln g [.b1, .b2, .b3]
+    if (st.s.m o.key).isSome ∧ st.s.lock.isNone then
+      tag "lc-model-wait-path"
+      advs ln g [.b1, .b2, .b3]
   | .fs =>
     if (← pcOf g) = .b3 then
       let st ← get
@@ -205,11 +214,11 @@ def onEvent (e : Ev) : M Unit := do
         throw (ln, s!"model returns val={r.val} runs={r.runs}", s!"val={o.val} runs={o.runs}")
     modify fun st => { st with cur := st.cur.del g }
 
-def explain (h : List Obs) : Except Err Nat := do
+def explain (h : List Obs) : Except Err (Nat × List String) := do
   let act : M Unit := do
     for e in events h do onEvent e
   let (_, st) ← act.run { s := init }
-  return st.n
+  return (st.n, st.tags)
 
 end LCx
 
@@ -221,8 +230,11 @@ structure X where
   s   : St
   n   : Nat := 0
   cur : Cur := []
+  tags : List String := []
 
 abbrev M := StateT X (Except Err)
+
+def tag (t : String) : M Unit := modify fun st => { st with tags := t :: st.tags }
 
 def adv (line : Nat) (g : Tid) (x : Nat) (want : PC) : M Unit := do
   let st ← get
@@ -285,12 +297,15 @@ def onEvent (e : Ev) : M Unit := do
           -- a flight is registered: join it if that explains the result, else let it finish first
           let po := (← get).cur.lookup p
           let explains : Bool := source o == some pid || (o.val.isSome && (match po with | some q => !q.ran | none => false))
-          if explains then advs ln g [.l1, .w0, .w1]
+          if explains then
+            tag "rm-model-joined-flight"
+            advs ln g [.l1, .w0, .w1]
           else
             forceDelete ln p pid
         | none => pure ()
       if (← pcOf g) = .l0 then
         -- own flight: the instance must already be in the map
+        tag "rm-model-own-flight-found-in-map"
         advs ln g [.l1, .n0, .n1, .n2, .n3, .g0, .g1, .g2, .g3, .m2, .d0, .d1, .d2, .d3, .r0]
       else
         let st ← get
@@ -309,15 +324,15 @@ def onEvent (e : Ev) : M Unit := do
         throw (ln, s!"model returns instance={want}", s!"val={o.val} err={o.err}")
     modify fun st => { st with cur := st.cur.del g }
 
-def explain (h : List Obs) : Except Err Nat := do
+def explain (h : List Obs) : Except Err (Nat × List String) := do
   let act : M Unit := do
     for e in events h do onEvent e
   let (_, st) ← act.run { s := init }
-  return st.n
+  return (st.n, st.tags)
 
 end RMx
 
-def explain (mode : String) (h : List Obs) : Except Err Nat :=
+def explain (mode : String) (h : List Obs) : Except Err (Nat × List String) :=
   if mode = "sf" then SFx.explain h
   else if mode = "lc" then LCx.explain h
   else if mode = "rm" then RMx.explain h
